@@ -240,6 +240,19 @@ CHECKS = {
             R("TestC17Backoff", 50000, 1000000),
         ],
     },
+    "C18": {
+        "pkg": "c18", "level": "exploration",
+        "manifest": {
+            "text": "real crypki.NewSigner with real TLS files against harness-run TLS servers of every identity / protocol range / client-certificate policy; the grid identity x protocol x client-auth is enumerated for an impostor-then-genuine list, bundles and longer lists are generated; servers record handshake outcome, negotiated version and peer certificates",
+            "note": "Go's TLS stack offers TLS 1.0/1.1 as 'older versions' (no SSLv3); the RA's client certificate chains to a client CA the requiring servers trust",
+            "technique": "property-based testing (rapid) + grid enumeration against real TLS servers; oracle = genuineness predicate by construction and server-side handshake records",
+        },
+        "assumptions": ["loopback aliases share one port", "certificates are valid 'now' by >= 24 h margins"],
+        "subchecks": [
+            E("TestC18Grid"),
+            R("TestC18TLS", 120, 500, qs=2),
+        ],
+    },
     "C19": {
         "pkg": "c19", "level": "exploration",
         "manifest": {
